@@ -83,7 +83,7 @@ impl Property for C11 {
             match variant {
                 1 => {
                     // answers queries after skipping the scheduled ones: only refresh queries get an answer
-                    peer.responder = Some(ResponderCfg { records: vec![a.clone()], delay_ms: 10, honor_known_answers: false, additionals: false, active: false, max_answers: Some(1 + rng.below(2) as u32), skip_first: 0 });
+                    peer.responder = Some(ResponderCfg { records: vec![a.clone()], delay_ms: 10, honor_known_answers: false, additionals: false, active: false, max_answers: Some(1 + rng.below(2) as u32), skip_first: 0, conflict_probes: 0 });
                     // switch the responder on just before mark(80)
                     s.op(ta + life * 80 / 100 - 1.min(life / 2), Op::PeerActive { p: 0, on: true });
                     horizon = ta + 2 * life.min(300_000) + 3000;
@@ -125,7 +125,7 @@ impl Property for C11 {
             s.op(ta, Op::PeerSend { p: 0, v4: true, sport: 5353, msg: announce(&ir.all()), to: Dest::Mcast });
             match variant {
                 1 => {
-                    peer.responder = Some(ResponderCfg { records: vec![rec_under_test.clone()], delay_ms: 10, honor_known_answers: false, additionals: false, active: false, max_answers: Some(1 + rng.below(2) as u32), skip_first: 0 });
+                    peer.responder = Some(ResponderCfg { records: vec![rec_under_test.clone()], delay_ms: 10, honor_known_answers: false, additionals: false, active: false, max_answers: Some(1 + rng.below(2) as u32), skip_first: 0, conflict_probes: 0 });
                     let k = [80u64, 85, 90, 95][rng.below(4) as usize];
                     s.op(ta + (life * k / 100).saturating_sub(1).max(1), Op::PeerActive { p: 0, on: true });
                     horizon = ta + 2 * life.min(300_000) + 3000;
